@@ -2,9 +2,14 @@
 
 REAL simulations (SimulationBuilder, TimerHandler, AssertionHandler and the four public decorators):
 1-4 nodes of 2 protocol classes carry boolean attributes that scripted timers flip, so the timeline of
-every predicate value after every executed event is known from the script.  Observation: whether and
-when FailedAssertionException escapes `start_simulation` / `step_simulation`, how many events had
-executed by then, and whether the protocols' `finish` had run (failure at finalisation vs interruption).
+every predicate value after every executed event is known from the script.  Some of the scripted timers
+are cancelled (`provider.cancel_timer`) in `initialize` or by an earlier timer of the same node: their
+events are still executed (popped, counted as an iteration) but run no protocol callback, so the
+predicates keep the value they had - possibly the one established in `initialize`.  Observation: whether
+and when FailedAssertionException escapes `start_simulation` / `step_simulation`, how many events had
+been taken from the event loop by then (read through a user-written handler that is handed the loop by
+the public `inject`), which protocol callbacks had run, and whether the protocols' `finish` had run
+(failure at finalisation vs interruption).
 """
 import copy
 import json
@@ -21,6 +26,7 @@ from gradysim.simulator.handler.assertion import (AssertionHandler, FailedAssert
                                                   assert_eventually_true_for_protocol,
                                                   assert_always_true_for_simulation,
                                                   assert_eventually_true_for_simulation)
+from gradysim.simulator.handler.interface import INodeHandler
 from gradysim.simulator.handler.timer import TimerHandler
 from gradysim.simulator.simulation import SimulationBuilder, SimulationConfiguration
 
@@ -50,13 +56,37 @@ def run_length(case):
     return n if case.get("maxIter") is None else min(n, case["maxIter"])
 
 
+def cancelled_by(ev):
+    """optional 5th field of an event: None = never cancelled, "init" = cancelled in `initialize` right after
+    being set, j = cancelled by the callback of event j (same node) - which has an effect only when that
+    callback really runs before this event does"""
+    return ev[4] if len(ev) > 4 else None
+
+
+def execution(case):
+    """the executed events in order: [(event index, whether its protocol callback runs)]; a cancelled timer's
+    event is executed all the same, without a callback"""
+    events = case["events"]
+    cancelled = {k for k, ev in enumerate(events) if cancelled_by(ev) == "init"}
+    done, out = set(), []
+    for k in schedule(case)[:run_length(case)]:
+        runs = k not in cancelled
+        if runs:
+            for k2, ev2 in enumerate(events):
+                if cancelled_by(ev2) == k and k2 != k and ev2[1] == events[k][1] and k2 not in done:
+                    cancelled.add(k2)
+        done.add(k)
+        out.append((k, runs))
+    return out
+
+
 def timeline(case):
     """attribute values of every node after each executed event: [ {attr: [value per node]} per iteration ]"""
     state = [dict(s) for s in case["init"]]
     out = []
-    for k in schedule(case)[:run_length(case)]:
-        _, node, attr, value = case["events"][k]
-        if attr is not None:
+    for k, runs in execution(case):
+        node, attr, value = case["events"][k][1:4]
+        if runs and attr is not None:
             state[node][attr] = value
         out.append({a: [s[a] for s in state] for a in ATTRS})
     return out
@@ -77,9 +107,33 @@ def pred_tables(case):
 class Rec:
     def __init__(self, case):
         self.case = case
-        self.executed = 0
+        self.scheduled = 0
+        self.delivered = []  # indices of the events whose protocol callback ran, in order
         self.finished = 0
         self.seen = []       # (assertion index, node id | None, events executed so far, value)
+        self.loop = None
+
+    @property
+    def executed(self):
+        """events taken from the event loop so far (all of them are scheduled in `initialize`)"""
+        return self.scheduled - len(self.loop)
+
+
+def make_probe(rec):
+    """a user-written handler: the public `inject` hands it the simulation's event loop, whose public `len`
+    tells how many scheduled events have not been executed yet"""
+    class Probe(INodeHandler):
+        @staticmethod
+        def get_label():
+            return "c18probe"
+
+        def inject(self, event_loop):
+            rec.loop = event_loop
+
+        def register_node(self, node):
+            pass
+
+    return Probe()
 
 
 def make_protocols(rec):
@@ -91,12 +145,19 @@ def make_protocols(rec):
             for k, ev in enumerate(rec.case["events"]):
                 if ev[1] == n:
                     self.provider.schedule_timer(f"e{k}", ev[0] / TICK)
+                    rec.scheduled += 1
+                    if cancelled_by(ev) == "init":
+                        self.provider.cancel_timer(f"e{k}")
 
         def handle_timer(self, timer):
-            ev = rec.case["events"][int(timer[1:])]
+            j = int(timer[1:])
+            ev = rec.case["events"][j]
             if ev[2] is not None:
                 setattr(self, ev[2], ev[3])
-            rec.executed += 1
+            rec.delivered.append(j)
+            for k, ev2 in enumerate(rec.case["events"]):
+                if cancelled_by(ev2) == j and k != j and ev2[1] == ev[1]:
+                    self.provider.cancel_timer(f"e{k}")
 
         def handle_packet(self, message):
             pass
@@ -143,6 +204,7 @@ def run_real(case):
                 "timer": TimerHandler()}
     for label in (["assertion", "timer"] if case.get("order", "assertion-first") == "assertion-first" else ["timer", "assertion"]):
         builder.add_handler(handlers[label])
+    builder.add_handler(make_probe(rec))
     for t in case["ptypes"]:
         builder.add_node(classes[t], (0.0, 0.0, 0.0))
     sim = builder.build()
@@ -169,8 +231,8 @@ def run_real(case):
         verdict = "failedAtEnd" if rec.finished == n else ["failedAfter", rec.executed - 1]
     else:
         verdict = exc
-    return {"verdict": verdict, "executed": rec.executed, "finished": rec.finished, "steps": steps,
-            "seen": rec.seen}
+    return {"verdict": verdict, "executed": rec.executed, "delivered": rec.delivered, "finished": rec.finished,
+            "steps": steps, "seen": rec.seen}
 
 
 class C18(Check):
@@ -183,14 +245,21 @@ class C18(Check):
                   "full strength. Tied to the real AssertionHandler inside real simulations by differential execution.")
     rule = ("real simulations with a TimerHandler and an AssertionHandler holding 1-3 assertions of the four decorator kinds; "
             "1-4 nodes of 2 protocol classes whose boolean attributes are flipped by scripted timers (0-7 events, ties, noise "
-            "events, max_iterations cuts incl. 0); the first always-violation placed at every position 0..last or nowhere, on "
+            "events, max_iterations cuts incl. 0); in half of the runs timers are cancelled in initialize or by an earlier "
+            "timer of the same node (the leading events, all events, random ones) so that executed events run no protocol "
+            "callback, with always-predicates false and eventually-predicates true from initialize on (and taken back by a "
+            "later event), so that the deciding event is a cancelled timer's; the first always-violation placed at every position 0..last or nowhere, on "
             "the last node of the asserted type, with nodes of the other type violating from the start; eventually-predicates "
             "met at a chosen position, after the cut, or never, per node; zero-event runs; start_simulation and manual "
             "stepping; both handler registration orders; non-trivial = both protocol types present and the deciding node is "
             "the last node of the asserted type")
     assumptions = ["predicates are judged after each executed event (never before the first)",
                    "same-instant timers run in scheduling order (C03) - used only to script the timeline",
-                   "manual stepping stops at the first exception (the blocking-run reading of 'no further event')"]
+                   "manual stepping stops at the first exception (the blocking-run reading of 'no further event')",
+                   "the event of a cancelled timer is an executed event (it is taken from the event loop and counted as an "
+                   "iteration, C02) that runs no protocol callback - checked on every run against the callbacks that ran",
+                   "executed events are counted as scheduled events no longer in the event loop, read by a user-written "
+                   "handler through the public inject()/len()"]
     modelled = ["gradysim/simulator/handler/assertion.py",
                 "gradysim/simulator/simulation.py (after-step fan-out, finalisation, exception propagation)"]
 
@@ -261,9 +330,49 @@ class C18(Check):
             init[r.randrange(nn)]["b"] = True      # true before the first event only: does not count ...
             # ... unless it is still true after the first executed event, which the script decides
         max_iter = r.choice([None, None, None, 0, 1, 2, 3, 5])
+        self.gen_stale(random.Random(stable_hash("C18", "stale", s)), ptypes, init, events, of_T, of_E)
         return {"kind": "assertions", "seed": s, "label": label, "ptypes": ptypes, "init": init, "events": events,
                 "specs": specs, "order": r.choice(["assertion-first", "timer-first"]), "maxIter": max_iter,
                 "drive": {"mode": r.choice(["start", "steps"])}}
+
+    @staticmethod
+    def gen_stale(r, ptypes, init, events, of_T, of_E):
+        """(own random stream, the rest of the case is unchanged by it)  Half of the cases get cancelled timers -
+        executed events that run no protocol callback - and predicates whose decisive value is the one set in
+        `initialize`: then the first event after which an always-predicate is false, or the only events after
+        which an eventually-predicate is true, may be such silent events."""
+        L, nn = len(events), len(ptypes)
+        if r.random() < 0.5:
+            return
+        # the decisive values are there before the first event
+        if of_T and r.random() < 0.5:
+            init[of_T[-1] if r.random() < 0.7 else r.choice(of_T)]["a"] = False
+        if r.random() < 0.5:
+            for k in (of_E if r.random() < 0.6 else range(nn)):
+                if r.random() < 0.85:
+                    init[k]["b"] = True
+            free = [k for k in range(L) if events[k][2] is None]
+            if free and r.random() < 0.5:
+                # ... and one of them is taken back by an event: true after the events before that one only
+                slot = r.choice(free)
+                events[slot][1:4] = [r.choice(of_E) if of_E else r.randrange(nn), "b", False]
+        # cancelled timers
+        order = [k for _, _, k in sorted((ev[0], ev[1], k) for k, ev in enumerate(events))]
+        pattern = r.choice(["front", "front", "all", "random", "by-earlier", "none"])
+        if L and pattern == "front":
+            for k in order[:r.randint(1, L)]:
+                events[k].append("init")
+        elif L and pattern == "all":
+            for ev in events:
+                ev.append("init")
+        elif L and pattern in ("random", "by-earlier"):
+            for pos, k in enumerate(order):
+                if r.random() < 0.45:
+                    earlier = [j for j in order[:pos] if events[j][1] == events[k][1]]
+                    if earlier and (pattern == "by-earlier" or r.random() < 0.5):
+                        events[k].append(r.choice(earlier))
+                    elif pattern == "random":
+                        events[k].append("init")
 
     def widen(self, seed, tier):
         for i in range(1500):
@@ -289,6 +398,11 @@ class C18(Check):
         if impl["verdict"] != model["verdict"] or impl["executed"] != model["executed"]:
             diffs.append(f"implementation: verdict {impl['verdict']} after {impl['executed']} events / model: "
                          f"{model['verdict']} after {model['executed']}")
+        # the protocol callbacks that ran are those of the script: cancelled timers are executed without one
+        want_delivered = [k for k, runs in execution(case)[:impl["executed"]] if runs]
+        if impl["delivered"] != want_delivered:
+            diffs.append(f"protocol callbacks ran for events {impl['delivered']}; the script says {want_delivered} "
+                         f"within the {impl['executed']} executed events")
         # the scripted timeline is what the real predicates saw
         tables = pred_tables(case)
         for idx, node, executed, value in impl["seen"]:
@@ -404,6 +518,31 @@ class C18(Check):
                 acc["first_violation_at_last"] = acc.get("first_violation_at_last", 0) + 1
         for sp in case["specs"]:
             acc["spec_" + sp["kind"]] = acc.get("spec_" + sp["kind"], 0) + 1
+        ex = execution(case)
+        silent = [i for i, (_, runs) in enumerate(ex) if not runs]
+        if silent:
+            acc["runs_with_cancelled_timer_events"] = acc.get("runs_with_cancelled_timer_events", 0) + 1
+            if len(silent) == N:
+                acc["runs_of_cancelled_timer_events_only"] = acc.get("runs_of_cancelled_timer_events_only", 0) + 1
+            if first is not None and first in silent:
+                acc["first_violation_at_cancelled_timer_event"] = acc.get("first_violation_at_cancelled_timer_event", 0) + 1
+            if self.met_only_at(case, silent):
+                acc["eventually_met_only_at_cancelled_timer_events"] = \
+                    acc.get("eventually_met_only_at_cancelled_timer_events", 0) + 1
+
+    def met_only_at(self, case, positions):
+        """some eventually-assertion is met, and would not be if the given iterations were not judged"""
+        N, ptypes = run_length(case), case["ptypes"]
+        rest = [i for i in range(N) if i not in positions]
+        for sp, tab in zip(case["specs"], pred_tables(case)):
+            if sp["kind"] == "eventuallySim" and any(tab[i] for i in range(N)) and not any(tab[i] for i in rest):
+                return True
+            if sp["kind"] == "eventuallyProto":
+                of = [k for k in range(len(ptypes)) if ptypes[k] == sp["T"]]
+                if of and all(any(tab[i][k] for i in range(N)) for k in of) and \
+                        not all(any(tab[i][k] for i in rest) for k in of):
+                    return True
+        return False
 
     def shrink(self, case, still_fails):
         best = copy.deepcopy(case)
@@ -419,8 +558,20 @@ class C18(Check):
             for i in range(len(best["events"]) - 1, -1, -1):
                 cand = copy.deepcopy(best)
                 del cand["events"][i]
+                for ev in cand["events"]:       # event indices name the cancelling callbacks: keep them pointing right
+                    c = cancelled_by(ev)
+                    if isinstance(c, int):
+                        ev[4] = "init" if c == i else c - 1 if c > i else c
                 if still_fails(cand):
                     best, changed = cand, True
+            for i in range(len(best["events"])):
+                c = cancelled_by(best["events"][i])
+                for simpler in ([None, "init"] if isinstance(c, int) else [None] if c == "init" else []):
+                    cand = copy.deepcopy(best)
+                    cand["events"][i] = cand["events"][i][:4] + ([simpler] if simpler else [])
+                    if still_fails(cand):
+                        best, changed = cand, True
+                        break
             if best.get("maxIter") is not None:
                 cand = copy.deepcopy(best)
                 cand["maxIter"] = None
